@@ -41,6 +41,10 @@ class fetcher:
             if missing:
                 raise errors.RequiredChksumDataMissing(target, *sorted(missing))
 
+        chfs = set(target.chksums).intersection(handlers)
+        chfs.discard("size")
+        chfs = list(chfs)
+
         if "size" in handlers:
             val = handlers["size"](file_location)
             if val == -1:
@@ -58,12 +62,10 @@ class fetcher:
                 )
         elif not os.path.exists(file_location):
             raise errors.MissingDistfile(file_location)
-        elif not os.stat(file_location).st_size:
+        elif not chfs and not os.stat(file_location).st_size:
+            # nothing to compare against: an empty file can only be a failed download
             raise errors.FetchFailed(file_location, "file is empty", resumable=False)
 
-        chfs = set(target.chksums).intersection(handlers)
-        chfs.discard("size")
-        chfs = list(chfs)
         if nondefault_handlers:
             for x in chfs:
                 val = handlers[x](file_location)
